@@ -82,10 +82,10 @@ func c01Stack(name string) (reg ociregistry.Interface, handler http.Handler) {
 		c, _ := httpStack(mem, nil, nil)
 		return ocifilter.Sub(c, "p"), nil
 	case "uni-seq":
-		return ociunify.New(mem, ocimem.New(), &ociunify.Options{ReadPolicy: ociunify.ReadSequential}), nil
+		return ociunify.New(strictMember{mem}, strictMember{ocimem.New()}, &ociunify.Options{ReadPolicy: ociunify.ReadSequential}), nil
 	case "uni-conc":
 		c, _ := httpStack(ocimem.New(), nil, nil)
-		return ociunify.New(mem, c, &ociunify.Options{ReadPolicy: ociunify.ReadConcurrent}), nil
+		return ociunify.New(strictMember{mem}, c, &ociunify.Options{ReadPolicy: ociunify.ReadConcurrent}), nil
 	case "http2":
 		inner, _ := httpStack(mem, nil, nil)
 		c, _ := httpStack(inner, nil, nil)
